@@ -473,7 +473,9 @@ DYN_Q = ["forall", "exists", "sum", "foreach"]
 DYN_T = ["Worker", "Late", "Undef", "Main", "i", "nosuch", "int"]     # defined / defined after use / never defined / static / variable / unknown / type
 DYN_BODY = ["(b.load > 0)", "b.load > 0", "b.load", "(b)", "b", "(b.load.x)", "(b.b)", "(b.nosuch)", "(b[0])", "(b())", "(b.Idle)", "(b = 1)",
             "(b.load = 1)", "(b++)", "(b == b)", "(b + 1)", "(-b)", "(b ? 1 : 2)", "(b.load')", "(b')", "(forall (b : Worker)(b.load > 0))",
-            "(exists (c2 : Late)(b.load > c2.late))", "(numOf(Worker) > b.load)", "(b.wk)", "(i.load)", "(Worker.load)", "()", ""]
+            "(exists (c2 : Late)(b.load > c2.late))", "(numOf(Worker) > b.load)", "(b.wk)", "(i.load)", "(Worker.load)", "()", "",
+            # clock constraints and floating-point values over the instances (a sum over a clock constraint has a type of its own)
+            "(b.wc < 5)", "(b.wc - x < 5)", "(b.wc <= 2.5)", "(b.wd > 0.5)", "(b.wc < 5 && b.load > 0)", "((b.wc < 5) + 1)", "(b.wc)", "(b.wc' == 0)"]
 DYN_OPS = ["spawn Worker(1)", "spawn Worker()", "spawn Worker(1, 2)", "spawn Worker(x)", "spawn nosuch(1)", "spawn i(1)", "spawn Main()", "spawn Late()",
            "spawn Undef()", "exit()", "exit(1)", "numOf(Worker)", "numOf(i)", "numOf(nosuch)", "numOf(Main)", "numOf(Undef)", "numOf()",
            "i = numOf(Worker)", "i = spawn Worker(1)", "spawn Worker(spawn Worker(1))", "spawn Worker(numOf(Worker))"]
@@ -483,7 +485,7 @@ def dynamic_doc(guard=None, inv=None, assign=None, prob=None, fbody=None, query=
     g = "dynamic Worker(int[0,3] wk); dynamic Late(); dynamic Undef(); int i; clock x; chan c; "
     if fbody is not None:
         g += "void gf() { %s; } " % fbody
-    worker = X.template("Worker", params="int[0,3] wk", decl="int load = 1; " + ("void wf() { %s; }" % wbody if wbody is not None else ""),
+    worker = X.template("Worker", params="int[0,3] wk", decl="int load = 1; clock wc; double wd; " + ("void wf() { %s; }" % wbody if wbody is not None else ""),
                         locations=[X.location("w0", "Idle"), X.location("w1", "Done")], init="w0",
                         transitions=[X.transition("w0", "w1", assign=wassign)])
     main = X.template("Main", locations=[X.location("id0", "A", inv=inv), X.location("id1", "B")], branchpoints=["id2"] if prob is not None else [],
@@ -507,6 +509,11 @@ def dynamic_docs(t):
                     docs.append(("sem:dyn-assignment:" + lab_, dynamic_doc(assign="i = " + e), "xml"))
                     docs.append(("sem:dyn-function:" + lab_, dynamic_doc(fbody="i = " + e), "xml"))
                     docs.append(("sem:dyn-symbolic-query:" + lab_, dynamic_doc(query="E<> " + e), "xmlq"))
+                if t == "thorough" or ".wc" in body or ".wd" in body:
+                    docs.append(("sem:dyn-compared:" + lab_, dynamic_doc(guard="i == %s" % e), "xml"))
+                    docs.append(("sem:dyn-value-query:" + lab_, dynamic_doc(query="E[<=10; 20] (max: %s)" % e), "xmlq"))
+                    docs.append(("sem:dyn-simulate-quick:" + lab_, dynamic_doc(query="simulate [<=10] { %s }" % e), "xmlq"))
+                    docs.append(("sem:dyn-probability-compared:" + lab_, dynamic_doc(query="Pr[<=10] (<> (%s) > 0)" % e), "xmlq"))
                 if t == "thorough":
                     docs.append(("sem:dyn-probability:" + lab_, dynamic_doc(prob=e), "xml"))
                     docs.append(("sem:dyn-simulate:" + lab_, dynamic_doc(query="simulate [<=10] { %s }" % e), "xmlq"))
